@@ -296,11 +296,18 @@ def w2(ctx, rep, e, r, oks, tag, where):
     A = alg.Algebra()
     noise = []
 
+    holder = {}
+
     def admitted(at, d):
         cst = d.m.get((), 0)
         if cst != 0 and abs(cst) in NOISE_FLOORS:
-            noise.append(at)
-            return True
+            # a noise floor is a test on an annual energy [kWh]: every other monomial must have degree (1, 0)
+            D_ = holder.get("D")
+            degs = set(D_.mono(mono) for mono in d.m if mono != ()) if D_ is not None else set()
+            if degs == {epdeg.E1}:
+                noise.append(at)
+                return True
+            return False
         return epdeg.admitted_guard(at, d)
     base = epdeg.base_degree_fn(e)
 
@@ -316,6 +323,7 @@ def w2(ctx, rep, e, r, oks, tag, where):
                 return epdeg.E1          # per-step value of a component bound by a reduction over the list
         return base(atom)
     D = degree.DegreeAnalysis(A, base2, admitted)
+    holder["D"] = D
     bad = None
     pruned = []
     for g, leaf in api.result_cases(r):
